@@ -15,7 +15,7 @@ func init() {
 	Registry["C03"] = Spec{
 		Fn:          c03,
 		Level:       "exploration",
-		Rule:        "seeded server scripts of 1..40 packets over every handled kind (Data/Totals blocks of catalogue schemas incl. zero-row headers and mid-stream end markers, Progress, Profile, ProfileEvents with UInt64/Int64 values, Log, TableColumns, Exception chains of depth 1..6 (and around 16, 30..70, around 256) with known and unknown codes, EndOfStream), reference-encoded at the negotiated revision (threshold neighbours on both sides), compression on/off, typed / single ResultColumn / Results.Auto / no result targets, with and without OnResult, every subset of telemetry callbacks, optionally one failing callback invocation; a quarter of the scripts are delivered by a slow server (idle gaps before packets, pauses longer than the read timeout inside packets). The client's callback trace (kind, order, arguments, snapshot of the bound columns taken inside OnResult) and return value are compared with an executable model of the receive loop. Non-trivial = >=3 packets of >=2 kinds or an exception chain of depth >=2; distinct = (kind sequence, schema, callback subset)",
+		Rule:        "seeded server scripts of 1..40 packets over every handled kind (Data/Totals blocks of catalogue schemas incl. zero-row headers and mid-stream end markers, Progress, Profile, ProfileEvents with UInt64/Int64 values, Log, TableColumns, Exception chains of depth 1..6 (and around 16, 30..70, around 256) with known and unknown codes, EndOfStream), reference-encoded at the negotiated revision (threshold neighbours on both sides), compression on/off (a third of the scripts mix NONE / LZ4 / ZSTD frames on one connection), typed / single ResultColumn / Results.Auto / no result targets, with and without OnResult, every subset of telemetry callbacks, optionally one failing callback invocation; a quarter of the scripts are delivered by a slow server (idle gaps before packets, pauses longer than the read timeout inside packets). The client's callback trace (kind, order, arguments, snapshot of the bound columns taken inside OnResult) and return value are compared with an executable model of the receive loop. Non-trivial = >=3 packets of >=2 kinds or an exception chain of depth >=2; distinct = (kind sequence, schema, callback subset)",
 		Assumptions: []string{"the executable model of the receive loop in harness/internal/props/script.go (documented single-block rule without OnResult, rows without target are an error)"},
 		MinDistinct: 300,
 	}
@@ -30,6 +30,12 @@ func c03(r *core.Run) {
 		}
 		rng := r.Rand(ci, "c03")
 		s := genResponse(rng, reps)
+		if ci%3 == 0 {
+			// the server picks the compression method frame by frame
+			for i := range s.Packets {
+				s.Packets[i].Method = rng.Intn(4)
+			}
+		}
 		if ci%4 == 0 {
 			// a slow server: some packets arrive in two pieces with a pause longer than the read
 			// timeout between them, others after idle gaps; delivery must be the same
